@@ -139,14 +139,69 @@ type Proxy struct {
 	exitErr   error
 }
 
-// FreePort finds a free TCP port.
+var portMu sync.Mutex
+var portsHandedOut = map[int]bool{}
+
+// FreePort finds a free TCP port that this process has not handed out before.
 func FreePort() int {
-	l, err := net.Listen("tcp", "127.0.0.1:0")
-	if err != nil {
-		panic(err)
+	portMu.Lock()
+	defer portMu.Unlock()
+	for {
+		l, err := net.Listen("tcp", ":0")
+		if err != nil {
+			panic(err)
+		}
+		port := l.Addr().(*net.TCPAddr).Port
+		l.Close()
+		if !portsHandedOut[port] {
+			portsHandedOut[port] = true
+			return port
+		}
 	}
-	defer l.Close()
-	return l.Addr().(*net.TCPAddr).Port
+}
+
+// verifyOwnership makes sure the listener we reached belongs to this child (another process may
+// have grabbed the port between FreePort and the child's bind): a probe key written through
+// the proxy must arrive in this child's fake backends.
+func (p *Proxy) verifyOwnership() error {
+	if p.Cfg.L1Kind == "inmem" && !p.Cfg.L2 {
+		return nil
+	}
+	ports := []int{0}
+	if p.Cfg.L2 {
+		ports = append(ports, 1)
+	}
+	for _, port := range ports {
+		key := fmt.Sprintf("__own_%d_%d_%d", os.Getpid(), p.Port, port)
+		cl, err := p.Dial(port, true)
+		if err != nil {
+			return err
+		}
+		cl.Watchdog = 10 * time.Second
+		res, err := cl.Do(wire.Cmd{Op: "set", Key: key, Value: []byte("x"), Opaque: 1})
+		cl.Close()
+		if err != nil || res.Class != "ok" {
+			return fmt.Errorf("ownership probe failed: %v %v", res.Class, err)
+		}
+		st := p.L1
+		if p.Cfg.L2 {
+			st = p.L2
+		}
+		found := false
+		for k := range st.SnapshotAll() {
+			if strings.HasPrefix(k, key) {
+				found = true
+			}
+		}
+		if !found {
+			return fmt.Errorf("port %d is served by another process", p.Port)
+		}
+	}
+	if !p.Alive() {
+		return fmt.Errorf("memproxy exited right after start-up")
+	}
+	p.ResetStores()
+	return nil
 }
 
 var dirSeq int
@@ -291,6 +346,10 @@ func startProxyOnce(bin string, cfg ProxyCfg) (*Proxy, error) {
 		}
 	}
 	// the probing connections above opened (and closed) backend connections: wait for them to go
+	if err := p.verifyOwnership(); err != nil {
+		p.Stop()
+		return nil, err
+	}
 	p.WaitBackendConns(p.IdleL1Conns(), 0, 5*time.Second)
 	return p, nil
 }
